@@ -39,7 +39,8 @@ func Run(ch *explore.Chooser, poolAlternatives bool, bodies []func()) *Sched {
 		s.threads = append(s.threads, &thread{id: i, resume: make(chan struct{})})
 	}
 	vsync.C = s
-	defer func() { vsync.C = nil }()
+	vsync.Yield = func(what string) { s.point(what, nil) }
+	defer func() { vsync.C, vsync.Yield = nil, nil }()
 	for i, b := range bodies {
 		t, body := s.threads[i], b
 		go func() {
